@@ -9,7 +9,7 @@
  *       8 clear(withcb)               9 swap            10 stat (size, load)
  *
  * hash function ids: 0 NULL, 1 k%m, 2 (k/2)%m, 3 cstl_hash_mul (what a NULL
- * function means on the first resize), 4/5/6 bad functions returning m, m+1,
+ * function means on the first resize), 4/5/6 bad functions returning m, 2^32 + k%m,
  * SIZE_MAX for the key BADKEY (k%m otherwise).  Every call the table makes to
  * a hash function is logged as ["h", fid, k, m, r].
  */
@@ -41,7 +41,8 @@ static void logh(int fid, size_t k, size_t m, size_t r)
 static size_t h1(size_t k, size_t m) { size_t r = k % m; logh(1, k, m, r); return r; }
 static size_t h2(size_t k, size_t m) { size_t r = (k / 2) % m; logh(2, k, m, r); return r; }
 static size_t hb4(size_t k, size_t m) { size_t r = k == BADKEY ? m : k % m; logh(4, k, m, r); return r; }
-static size_t hb5(size_t k, size_t m) { size_t r = k == BADKEY ? m + 1 : k % m; logh(5, k, m, r); return r; }
+/* a value whose low 32 bits are in range: wrong only for code that looks at all of the size_t */
+static size_t hb5(size_t k, size_t m) { size_t r = k == BADKEY ? ((size_t)1 << 32) + k % m : k % m; logh(5, k, m, r); return r; }
 static size_t hb6(size_t k, size_t m) { size_t r = k == BADKEY ? SIZE_MAX : k % m; logh(6, k, m, r); return r; }
 static cstl_hash_func_t *fn_of(int f)
 {
